@@ -29,6 +29,33 @@ MODEL_MODULES = ['SkyllhModel.Model.SigGen']
 # comparisons of public behaviour (generate_signal_events outputs, mu2flux, change_shg_mgr) always run.
 SKIPS = collections.Counter()
 
+# One counter per branch of the modelled functions (hit = the correspondence exercised that branch of the model on
+# this run).  Branches that are errors the theorems prove unreachable under the guard are listed separately.
+BRANCHES = [
+    'choice:first-item', 'choice:last-item', 'choice:interior-item', 'choice:skips-zero-weight-item',
+    'distribute:rounding-exact', 'distribute:incr(top-up)', 'distribute:decr(surplus)', 'distribute:decr-masks-empty-dataset',
+    'distribute:total-0', 'aggregate:ok', 'aggregate:length-mismatch-error',
+    'kwCall:early-return(mean 0)', 'kwCall:overwrite',
+    'minMax:ok', 'inE:no-range', 'inE:range', 'inBand:event-on-closed-edge', 'band:source-inside-coverage',
+    'band:source-outside-coverage', 'batchedIdx:one-batch', 'batchedIdx:several-batches', 'batchedIdx:batch-size-0-error',
+    'groupCands:no-candidate-for-a-source', 'tableStep:several-(group,dataset)-pairs', 'normalise:ok',
+    'generate:total-0', 'generate:one-dataset-drawn', 'generate:several-datasets-drawn', 'genShgs:several-groups-in-a-dataset',
+    'genGroup:nothing-invalid', 'genGroup:redraw', 'redraw:one-round', 'redraw:several-rounds',
+    'replaceInvalid:keeps-valid-and-replaces-invalid', 'invalidMask:below-lo', 'invalidMask:above-hi',
+    'invalidMask:no-ranges', 'invalidMask:several-fields', 'fieldVal:relocated-field', 'fieldVal:stored-field',
+    'offsetBy:regular', 'offsetBy:pole-branch', 'postProc:ok', 'mu2flux:ok', 'setSel:several-slices-in-one-buffer',
+]
+UNREACHABLE = {
+    'bump:index-error': 'c18_distribute_no_error', 'distribute:too-few-deviates': 'harness supplies the deviates consumed',
+    'drawRows:index-error': 'c18_draw_no_error', 'redraw:fuel/deviates-exhausted': 'termination assumption (open finding when violated)',
+    'replaceInvalid:shape-mismatch': 'c18_generate_buffer_refines + redraw_inv (exactly k redrawn)',
+    'setSel:out-of-range / unwrapAll:unwritten-slot': 'c18_generate_buffer_refines',
+    'minMax:empty-MC': 'set-ups without MC events are not generated (numpy raises)',
+    'rangeVals:missing-field(KeyError)': 'guard of c18_validRel_iff; directed class mc:field-of-one-dataset-only on the code side',
+    'aggregate:generator-raises': 'per-dataset generators are stubs that raise only for negative requests (c18_nonneg)',
+}
+BR = collections.Counter()
+
 
 def _private(obj, *names):
     """obj.<names[0]>.<names[1]>… or None when any link is missing (never raises)"""
@@ -354,6 +381,16 @@ def gen_mc_case(rng, small=False):
         c['vfield2'] = rng.choice([f for f in ('log_energy', 'ang_err', 'sin_dec') if f != c['vfield']])
     if rng.random() < 0.25:
         c['mode'] = 'poisson'
+    # glue dimensions: how the same numbers are handed in
+    c['layout'] = rng.choice(['copy', 'copy', 'strided', 'offset', 'readonly'])
+    c['ranges_form'] = rng.choice(['list', 'list', 'inplace', 'setter'])
+    c['mean_form'] = rng.choice(['int', 'int', 'float', 'np.int64', 'np.float64', '0d'])
+    c['nlist_form'] = rng.choice(['list', 'ndarray'])
+    c['same_rss'] = rng.random() < 0.5
+    for G in groups:
+        G['erange_form'] = rng.choice(['tuple', 'list', 'ndarray'])
+    if nds > 1 and rng.random() < 0.35:
+        c['extra_field'] = True             # dataset 0 has a data field the others do not have, with a range on it
     return c
 
 
@@ -397,6 +434,8 @@ def _mc_fields(case):
         f['mcweight'] = f['mcweight'] * (f['true_energy'] / 1e3) ** 2.2
         if d.get('zero_mcw') == 1:
             f['mcweight'][::3] = 0.0
+        if case.get('extra_field') and j == 0:
+            f['only0'] = np.random.RandomState(d['seed'] + 7).uniform(0.0, 1.0, d['n'])
         nxt = 1
         # events exactly on the limits of the energy ranges (closed interval, pass-through comparison)
         for G in case['groups']:
@@ -475,7 +514,9 @@ def _row_values(case, mcs, rows, field):
     vals = []
     for (j, i, g, k) in rows:
         f = mcs[j]
-        if field in ('dec', 'sin_dec', 'ra'):
+        if field not in f:
+            vals.append(float('nan'))            # a field only some datasets have (never configured for the others)
+        elif field in ('dec', 'sin_dec', 'ra'):
             (sra, sdec, _) = case['groups'][g]['sources'][k]
             (ra, dec) = ref_relocate(sra, sdec, f['true_ra'][i], f['true_dec'][i], f['ra'][i], f['dec'][i])
             vals.append({'dec': dec, 'sin_dec': math.sin(dec), 'ra': ra}[field])
@@ -499,6 +540,8 @@ def _valid_ranges(case, mcs, rows, wnorm):
         specs = [(case['vfield'], case['reject'], case['vsel'])]
         if case.get('vfield2'):
             specs.append((case['vfield2'], 0.2, 1.0 - case['vsel']))
+        if case.get('extra_field'):
+            vr[0]['only0'] = (0.1, 0.9)
         for (field, rej, vsel) in specs:
             if rej <= 0:
                 continue
@@ -551,6 +594,17 @@ def _valid_ranges(case, mcs, rows, wnorm):
     return vr, valid, info
 
 
+class _Frozen(dict):
+    """a private copy of returned events (field name -> array), with the length of the event array"""
+    def __init__(self, ev):
+        super().__init__((f, np.array(ev[f])) for f in ev.field_name_list)
+        self.n = len(ev)
+        self.field_name_list = list(ev.field_name_list)
+
+    def __len__(self):
+        return self.n
+
+
 class ImplConstructionError(Exception):
     """the implementation refused to construct the generator (not a harness error)"""
 
@@ -574,7 +628,7 @@ class McRun(object):
         self.exc = None
         self.kw_hist = None
         # first build without ranges (the weights are needed to design the ranges)
-        (g0, self.shg_mgr, _) = _construct(self.cfg, case['groups'], self.mcs, self.lts)
+        (g0, self.shg_mgr, _) = _construct(self.cfg, case['groups'], self.mcs, self.lts, layout=case.get('layout', 'copy'))
         self.fac = float(self.cfg.to_internal_time_unit(time_unit=__import__('astropy.units', fromlist=['day']).day))
         self.units = [float(shg.fluxmodel.to_internal_flux_unit()) for shg in self.shg_mgr.shg_list]
         # harness-side reconstruction of the candidate weights (documented formula, plain floats)
@@ -613,7 +667,8 @@ class McRun(object):
         wv = np.asarray(wn, dtype=np.float64)
         self.invalid_mass = float(np.sum(wv[~self.valid])) if len(wv) == len(self.valid) else 0.0
         (self.gen, self.shg_mgr, self.datas) = _construct(
-            self.cfg, case['groups'], self.mcs, self.lts, valid_ranges=self.vr)
+            self.cfg, case['groups'], self.mcs, self.lts, valid_ranges=self.vr, layout=case.get('layout', 'copy'),
+            ranges_form=case.get('ranges_form', 'list'))
 
     def near_edge(self, row):
         """MC event within 1e-12 of an edge of the source band (membership then depends on rounding); never in
@@ -632,9 +687,12 @@ class McRun(object):
         mode = self.case.get('mode', 'int')
         self.rss = fx.make_rss(self.case['seed'], budget=self.case.get('budget', 300000))
         before = self.snapshot()
+        self.snap_before = before
+        form = {'int': int, 'float': float, 'np.int64': np.int64, 'np.float64': np.float64,
+                '0d': lambda v: np.array(int(v))}[self.case.get('mean_form', 'int')]
         try:
-            (n_signal, d) = self.gen.generate_signal_events(self.rss, float(self.case['n']) if mode == 'poisson' else self.case['n'],
-                                                            poisson=(mode == 'poisson'))
+            (n_signal, d) = self.gen.generate_signal_events(
+                self.rss, float(self.case['n']) if mode == 'poisson' else form(self.case['n']), poisson=(mode == 'poisson'))
             self.n_signal = int(n_signal)
             self.events = {int(k): v for k, v in d.items()}
         except Exception as e:  # noqa
@@ -661,23 +719,34 @@ class McRun(object):
         L = ['reset', 'fac %s' % f2b(self.fac)]
         for g, G in enumerate(self.case['groups']):
             er = G['erange']
-            L.append('grp %s %s %s %d %s %s %s' % (
+            L.append('grp %s %s %s %d %s %s %s %d %s %s' % (
                 flist(np.sin(np.array([s[1] for s in G['sources']], dtype=np.float64))),
                 flist([1.0 if s[2] is None else s[2] for s in G['sources']]), f2b(G['hbw']),
                 0 if er is None else 1, f2b(0.0 if er is None else er[0]), f2b(0.0 if er is None else er[1]),
-                f2b(self.units[g])))
+                f2b(self.units[g]), int(G.get('batch', 128)),
+                flist([s[0] for s in G['sources']]), flist([s[1] for s in G['sources']])))
         for j, f in enumerate(self.mcs):
-            L.append('ds %s %s %s %s' % (f2b(self.lts[j]), flist(f['sin_true_dec']), flist(f['true_energy']),
-                                         flist(f['mcweight'])))
+            L.append('ds %s %s %s %s %s %s %s %s' % (
+                f2b(self.lts[j]), flist(f['sin_true_dec']), flist(f['true_energy']), flist(f['mcweight']),
+                flist(f['true_ra']), flist(f['true_dec']), flist(f['ra']), flist(f['dec'])))
         for g in range(len(self.case['groups'])):
             for j in range(len(self.mcs)):
                 L.append('flux %d %d %s' % (g, j, flist(self.flux_values(g, j))))
         self.i_table = len(L)
         L.append('table')
+        # validity ranges: the model relocates the events itself and evaluates the ranges on the relocated values;
+        # fields relocation does not touch are handed over as stored
+        fid = {}
         for j, d in enumerate(self.vr):
             for fld in sorted(d):
-                L.append('vrange %d %s %s %s' % (j, f2b(d[fld][0]), f2b(d[fld][1]),
-                                                 flist(_row_values(self.case, self.mcs, self.rows, fld))))
+                if fld in ('ra', 'dec', 'sin_dec'):
+                    code = fld
+                else:
+                    if (j, fld) not in fid:
+                        fid[(j, fld)] = len(fid)
+                        L.append('oth %d %d %s' % (j, fid[(j, fld)], flist(self.mcs[j][fld])))
+                    code = 'o%d' % fid[(j, fld)]
+                L.append('vrel %d %s %s %s' % (j, code, f2b(d[fld][0]), f2b(d[fld][1])))
         self.i_gen = len(L)
         L.append('gen %d %d %s' % (1 if _GEN['choiceSideRight'] else 0, self.total or 0, flist(self.gen_us)))
         self.i_mu = len(L)
@@ -741,8 +810,18 @@ class McRun(object):
             return ('mu2flux(%r, per_source=True): model %r, implementation %r' % (self.mu, mp, ip), False, False)
         if abs(b2f(tot) - it) > 1e-9 * abs(it):
             return ('mu2flux(%r): model %r, implementation %r' % (self.mu, b2f(tot), it), False, False)
-        # ---- generation
+        # ---- generation: rows (exact) and relocated coordinates (1e-9 rad / 1e-12)
         gl = ans[self.i_gen]
+        mcoords = {}
+        if gl != 'ERR':
+            (h1, h2, mb) = gl.split(';', 2)
+            parts = []
+            for blk in (mb.split('|') if mb else []):
+                (dj, evs_) = blk.split('=')
+                items = [] if evs_ == '-' else [x.split(':') for x in evs_.split(',')]
+                mcoords[int(dj)] = [(b2f(x[1]), b2f(x[2]), b2f(x[3])) for x in items]
+                parts.append('%s=%s' % (dj, ','.join(x[0] for x in items) or '-'))
+            gl = '%s;%s;%s' % (h1, h2, '|'.join(parts))
         if self.exc is not None:
             impl = 'ERR'
         else:
@@ -757,6 +836,14 @@ class McRun(object):
                 amb = bool(np.min(np.minimum(np.abs(self.cdf[k] - u), np.abs(self.cdf[k - 1] - u))) < 1e-12)
             return ('generate_signal_events(total=%r): implementation %s, model %s' % (
                 self.total, impl[:300], gl[:300]), amb, True)
+        for j, cs_ in mcoords.items():
+            ev = self.events[j]
+            for n_, (mra, mdec, msd) in enumerate(cs_):
+                dd = ref_sep(mra, mdec, float(ev['ra'][n_]), float(ev['dec'][n_]))
+                if not dd <= 1e-9 or abs(msd - float(ev['sin_dec'][n_])) > 1e-9:
+                    return ('generate_signal_events: event %d of dataset %d: relocated (ra, dec, sin_dec) — implementation '
+                            '(%r, %r, %r), model (%r, %r, %r)' % (n_, j, float(ev['ra'][n_]), float(ev['dec'][n_]),
+                                                                   float(ev['sin_dec'][n_]), mra, mdec, msd), False, False)
         return (None, False, False)
 
     def _impl_rows_of(self, j):
@@ -898,6 +985,25 @@ def _inject_checks(case, run):
                 return '%s.%s: sin_dec of an injected event is not sin(dec)' % (head, call)
             if not (0.0 <= float(ev['ra'][n]) < 2 * math.pi + 1e-12):
                 return '%s.%s: ra=%r of an injected event is outside [0, 2pi)' % (head, call, float(ev['ra'][n]))
+    # ---- the arrays handed out are the caller's: no live view of the stored MC, no buffer shared between datasets;
+    # writing into them changes nothing that is stored
+    for j, ev in run.events.items():
+        mcj = run.datas[j].mc
+        for fld in ev.field_name_list:
+            a_ = np.asarray(ev[fld])
+            if fld in mcj and np.shares_memory(a_, np.asarray(mcj[fld])):
+                return '%s.%s: field %s of the events returned for dataset %d is a view of the stored MC array' % (head, call, fld, j)
+            for j2, ev2 in run.events.items():
+                if j2 > j and fld in ev2 and np.shares_memory(a_, np.asarray(ev2[fld])):
+                    return '%s.%s: field %s of the events of datasets %d and %d share memory' % (head, call, fld, j, j2)
+    live = run.events
+    run.events = dict((j, _Frozen(ev)) for j, ev in live.items())      # private copies for the later comparisons
+    for j, ev in live.items():
+        for fld in ('ra', 'dec', 'mcweight', 'log_energy'):
+            if len(ev) and np.asarray(ev[fld]).flags.writeable:
+                np.asarray(ev[fld])[...] = -7.0
+    if run.snap_before != run.snapshot():
+        return '%s.%s: writing into the returned events altered the stored MC arrays' % (head, call)
     # ---- Analysis.generate_signal_events on top of the generator: explicit poisson=False with pre-filled lists (and the
     # same seed: same events as before), the default path (poisson=True), mean_n_sig=0
     import types
@@ -919,11 +1025,12 @@ def _inject_checks(case, run):
         pre = [DataFieldRecordArray(dict((k, np.array(v[:3])) for k, v in f.items()), copy=True) for f in run.mcs]
         kw_in = {'poisson': False}
         r1 = call_analysis(fx.make_rss(case['seed']), int(case['n']), sig_kwargs=kw_in,
-                           n_events_list=[3] * nds, events_list=pre)
+                           n_events_list=(np.array([3] * nds) if case.get('nlist_form') == 'ndarray' else [3] * nds),
+                           events_list=pre)
         if r1 is not None:
             (n_sig, n_list, ev_list) = r1
             lens = [len(e) for e in ev_list]
-            if n_sig != int(case['n']) or list(n_list) != lens or sum(lens) != 3 * nds + int(case['n']):
+            if n_sig != int(case['n']) or [int(x) for x in n_list] != lens or sum(lens) != 3 * nds + int(case['n']):
                 return ('Analysis.generate_signal_events(mean_n_sig=%d, poisson=False, 3 events per dataset already present): '
                         'n_sig=%r, n_events_list=%r, lengths of the event lists %r' % (case['n'], n_sig, list(n_list), lens))
             if case.get('mode', 'int') == 'int':
@@ -948,8 +1055,10 @@ def _inject_checks(case, run):
         means = [m1, m1 + 3, 0, 1, m1 + 3, m1]
         shared = {'poisson': False}
         handed = []
+        one_rss = fx.make_rss(case['seed'] + 9)
         for step, m in enumerate(means):
-            rr = call_analysis(fx.make_rss(case['seed'] + 10 + step), m, sig_kwargs=shared)
+            rr = call_analysis(one_rss if case.get('same_rss') else fx.make_rss(case['seed'] + 10 + step), m,
+                               sig_kwargs=shared)
             if rr is None:
                 handed = None
                 break
